@@ -3,8 +3,10 @@
 // Part A (round trips over operation sequences): a real BlockManager with -fastprune file sizes (64 KiB block
 //   files, 16 KiB chunks) on a fresh directory, blocksdir XOR key off and on. All histories up to depth D over
 //   {WriteBlock of 5 size classes (tiny, 20 KiB, exactly fills the file, one byte too many, larger than a
-//   file), WriteBlockUndo of 3 size classes (1 byte, 30 KiB, > 64 KiB), FlushChainstateBlockFile,
-//   PruneOneBlockFile+UnlinkPrunedFiles}. After each history: ReadBlock(index), ReadBlock(pos),
+//   file), WriteBlockUndo of 3 size classes (1 byte, 30 KiB, > 64 KiB), FlushChainstateBlockFile +
+//   WriteBlockIndexDB, PruneOneBlockFile+UnlinkPrunedFiles, clean restart (flush, WriteBlockIndexDB, destroy the
+//   BlockManager, re-create it on the same directory and block tree database, LoadBlockIndexDB)}, plus directed
+//   histories beyond the depth bound. After each history: ReadBlock(index), ReadBlock(pos),
 //   ReadRawBlock (whole + part range classes), ReadBlockUndo must return byte-identical data; records must tile
 //   their files without overlap and agree with CBlockFileInfo; the bytes on disk (de-obfuscated by a 1-line
 //   independent XOR) must be magic|size|payload(|sha256d(prevhash|payload)) at the indexed position; pruned
@@ -441,13 +443,21 @@ struct PartA {
         if (big_undo_gt_block) out.count("A_undo_larger_than_blocks");
         if (!r.pruned_files.empty()) out.count("A_pruned");
         if (r.restarts) out.count("A_restarted");
-        {
-            bool undo_after_restart = false; // an undo record written after a restart into a file that already held undo data
-            (void)undo_after_restart;
-        }
         if (files.size() >= 2) out.distinct(use_xor ? "layoutx" : "layout", layout);
         (void)hist;
     }
+};
+
+// Directed histories beyond the enumeration depth (both tiers). D1 is the stale-file-info scenario: undo data is
+// written into the rev file of a block file that is no longer current, after that file's info record was already
+// persisted; a restart then reloads the file info; the next undo record for that file must not overwrite anything.
+static const std::vector<std::vector<int>> DIRECTED = {
+    {W_TINY, W_TINY, W_TINY, U_EMPTY, W_OVER, FLUSH, U_BIG, RESTART, U_EMPTY},
+    {W_TINY, W_TINY, W_TINY, U_EMPTY, RESTART, U_BIG, RESTART, U_EMPTY},
+    {W_MID, W_MID, W_MID, W_SPILL, U_BIG, FLUSH, U_BIG, RESTART, U_HUGE, RESTART, U_BIG},
+    {W_TINY, W_OVER, U_EMPTY, U_HUGE, RESTART, W_TINY, U_EMPTY, PRUNE, RESTART, W_TINY, U_EMPTY},
+    {W_FIT, W_TINY, U_HUGE, RESTART, U_EMPTY, FLUSH, RESTART, W_TINY, U_BIG},
+    {W_TINY, W_TINY, W_OVER, W_TINY, U_EMPTY, U_BIG, FLUSH, U_EMPTY, U_EMPTY, RESTART, W_MID, U_BIG, RESTART, W_SPILL, U_EMPTY},
 };
 
 static uint64_t ipow(uint64_t b, int e) { uint64_t r = 1; while (e-- > 0) r *= b; return r; }
@@ -459,9 +469,15 @@ static bool RunPartA(ck::Node& node, const fs::path& scratch, bool use_xor, int 
     const uint64_t nprefix = ipow(N_OPS, split);
     auto decode = [&](uint64_t j, int len) { std::vector<int> h(len); for (int i = len - 1; i >= 0; i--) { h[i] = j % N_OPS; j /= N_OPS; } return h; };
     pool.run(
-        nprefix + 1,
+        nprefix + 1 + DIRECTED.size(),
         [&](uint64_t job, fp::Out& out) {
             PartA a(node, scratch / fs::u8path(strprintf("a%d", (int)getpid())), use_xor);
+            if (job > nprefix) {
+                const auto& h = DIRECTED[job - nprefix - 1];
+                out.count(a.Execute(h, out, true) ? "A_directed" : "A_directed_not_enabled");
+                fs::remove_all(a.root);
+                return;
+            }
             std::function<void(std::vector<int>&)> dfs = [&](std::vector<int>& h) {
                 if (!a.Execute(h, out, true)) return; // some op not enabled: not a history of the space
                 if ((int)h.size() >= depth) return;
@@ -485,7 +501,7 @@ static bool RunPartA(ck::Node& node, const fs::path& scratch, bool use_xor, int 
             }
             fs::remove_all(a.root);
         },
-        [&](uint64_t job) { return "partA xor=" + std::to_string(use_xor) + " prefix " + (job == nprefix ? std::string("(short histories)") : HistStr(decode(job, split))); });
+        [&](uint64_t job) { return "partA xor=" + std::to_string(use_xor) + " prefix " + (job > nprefix ? "directed " + HistStr(DIRECTED[job - nprefix - 1]) : job == nprefix ? std::string("(short histories)") : HistStr(decode(job, split))); });
     return pool.complete;
 }
 
@@ -887,7 +903,7 @@ static int Run()
     E.set("partB_outcomes", oc + "}");
     for (auto& [k, v] : counts) printf("  %s = %llu\n", k.c_str(), (unsigned long long)v);
     for (auto& [k, v] : cls) printf("  [%s] = %llu\n", k.c_str(), (unsigned long long)v);
-    E.rule = "Part A: every history of length 1..depth over {WriteBlock x5 size classes (160 B, 20 kB, exactly filling the 64 KiB -fastprune file, one byte too many, 70 kB), WriteBlockUndo x3 (1 B, 30 kB, 69 kB), FlushChainstateBlockFile, prune oldest file} on a fresh real BlockManager, XOR key on and off; after each history all reads (ReadBlock index/pos, ReadRawBlock whole + 13 part ranges, ReadBlockUndo) compared byte for byte, records tile their files and match CBlockFileInfo, raw disk bytes match magic|size|payload(|checksum). "
+    E.rule = "Part A: every history of length 1..depth over {WriteBlock x5 size classes (160 B, 20 kB, exactly filling the 64 KiB -fastprune file, one byte too many, 70 kB), WriteBlockUndo x3 (1 B, 30 kB, 69 kB), FlushChainstateBlockFile + WriteBlockIndexDB, prune oldest file, clean restart (flush, WriteBlockIndexDB, destroy the BlockManager, re-create it on the same directory and block tree DB, LoadBlockIndexDB)} plus 6 directed histories of length 8..15 (incl. undo data written into a no-longer-current file around a restart) on a fresh real BlockManager, XOR key on and off; after each history all reads (ReadBlock index/pos, ReadRawBlock whole + 13 part ranges, ReadBlockUndo) compared byte for byte, records tile their files and match CBlockFileInfo, raw disk bytes match magic|size|payload(|checksum). "
              "Part B: on a regtest node, for 3 block records and 3 undo records: every byte x {0x01,0x80} flip, every truncation length, every zeroed tail; ReadBlock/ReadBlockUndo must fail or return the original (strictly fail for magic/header/undo payload/checksum changes); flips that ReadBlock lets through with different tx bytes are replayed in a fork (InvalidateBlock, corrupt, ReconsiderBlock) and must not become active. "
              "distinct_nontrivial = distinct faults rejected at read + distinct faults blocked at connection + distinct multi-file layouts reached.";
     E.assume("regtest, -fastprune (64 KiB block files, 16 KiB chunks); stored blocks of part A are deserialisable one-transaction blocks hanging off a header-only spine (BlockManager does not look at transaction validity)");
@@ -898,6 +914,8 @@ static int Run()
     g &= need(rejected.size() > 100, "no rejected faults");
     g &= need(counts["B_connect_tests"] > 0 && counts["B_connect_blocked"] > 0, "no connection test blocked");
     g &= need(counts["A_pruned"] > 0, "no history pruned a file");
+    g &= need(counts["A_restarted"] > 0, "no history restarted the BlockManager");
+    g &= need(counts["A_directed"] > 0 && counts["A_directed_not_enabled"] == 0 && counts["A_directed"] % DIRECTED.size() == 0, "a directed history was not executable");
     g &= need(counts["A_undo_in_finalized_file"] > 0, "no history wrote undo data into a file the block cursor had left");
     g &= need(counts["A_undo_larger_than_blocks"] > 0, "no file whose undo data exceeds its block data");
     g &= need(layouts > 10, "too few multi-file layouts");
